@@ -272,6 +272,56 @@ func (c *Ctx) c13Container(sizes [][2]int) {
 	}
 }
 
+// layout only (nothing is written): every payload sector count up to two DIFAT sectors, model vs implementation,
+// plus the covering inequalities of MS-CFB stated directly on the implementation's answer
+func (c *Ctx) c13Locate(maxSectors, step int) {
+	var reqs []string
+	var locs [][]int
+	var ns []int
+	// the hook keeps one zero buffer that only grows: size it once
+	excelize.VerifCfbLocate([]string{"EncryptedPackage"}, []int{512*maxSectors + 512})
+	for n := 0; n <= maxSectors; n += step {
+		for _, off := range []int{0, 100} {
+			size := 512*n + off
+			if size == 0 {
+				continue
+			}
+			l := excelize.VerifCfbLocate([]string{"EncryptionInfo", "EncryptedPackage"}, []int{248, size})
+			c.Count("locate", true, "")
+			difat, fat, minifat, dir, big, mini := l[1], l[2], l[3], l[4], l[5], l[6]
+			total := difat + fat + minifat + dir + big + (mini+7)/8
+			if fat*128 < total {
+				c.Fail("oracle", "C13_cfb_geometry", map[string]interface{}{"EncryptedPackage_size": size}, fmt.Sprintf("payload of %d bytes: %d FAT sectors hold %d entries but the file has %d sectors", size, fat, fat*128, total), "")
+			}
+			if fat > 109 && difat*127 < fat-109 {
+				c.Fail("oracle", "C13_cfb_geometry", map[string]interface{}{"EncryptedPackage_size": size}, fmt.Sprintf("payload of %d bytes: %d DIFAT sectors cannot list %d FAT sectors", size, difat, fat), "")
+			}
+			if (fat-1)*128 >= total+1 && fat > 1 {
+				c.Fail("oracle", "C13_cfb_geometry", map[string]interface{}{"EncryptedPackage_size": size}, fmt.Sprintf("payload of %d bytes: %d FAT sectors for %d sectors is more than needed", size, fat, total), "")
+			}
+			reqs = append(reqs, fmt.Sprintf("c13.locate 3 248 %d", size))
+			locs = append(locs, l)
+			ns = append(ns, size)
+		}
+	}
+	if c.Model == nil || c.Model.path == "" {
+		return
+	}
+	outs := c.Model.Call(reqs)
+	for i, l := range locs {
+		c.R.Traces++
+		impl := fmt.Sprintf("%d %d %d %d %d %d %d", l[1], l[2], l[3], l[4], l[5], l[6], l[7])
+		fs := strings.Fields(outs[i])
+		if len(fs) != 8 {
+			c.Fail("model-impl", "locate", ns[i], "model: "+outs[i], "")
+			continue
+		}
+		if model := strings.Join(append(fs[:6:6], fs[7]), " "); model != impl {
+			c.Fail("model-impl", "locate", map[string]interface{}{"EncryptedPackage_size": ns[i]}, fmt.Sprintf("sector layout for a %d-byte package: implementation [difat fat minifat dir big mini end] = %s, model %s", ns[i], impl, model), "")
+		}
+	}
+}
+
 func (c *Ctx) c13Crypt(sizes []int) {
 	var reqs []string
 	for _, n := range sizes {
@@ -423,6 +473,11 @@ func runC13(c *Ctx) {
 		sizes = append(sizes, [2]int{248, 512 * 30300}, [2]int{4095, 512*30300 + 7}, [2]int{248, 512 * 46500})
 	}
 	c.c13Container(sizes)
+	if c.Thorough() {
+		c.c13Locate(47000, 1)
+	} else {
+		c.c13Locate(31000, 1)
+	}
 	var ns []int
 	for n := 0; n <= 600; n += 7 {
 		ns = append(ns, n)
